@@ -19,7 +19,7 @@ ASSUMPTIONS = ["numba is installed in this environment (the fallback coupling is
 CONFIG = {"quick": {"shards": 4, "timeout_s": 600, "random_layers": 300, "pipeflows": 40},
           "thorough": {"shards": 8, "timeout_s": 3000, "random_layers": 20000, "pipeflows": 600}}
 REQUIRED_COUNTERS = ["resolutions_checked", "resolutions_key_in_user_only", "resolutions_key_in_call_only", "resolutions_key_in_both",
-                     "resolutions_iter_patterns", "resolutions_deprecated_mode", "resolutions_unknown_key", "purity_checks",
+                     "newton_stage_checks_hydraulics", "newton_stage_checks_heat", "newton_stage_checks_bidirectional", "resolutions_iter_patterns", "resolutions_deprecated_mode", "resolutions_unknown_key", "purity_checks",
                      "documented_defaults_checked", "pipeflow_effect_checks", "coupling_reuse_internal_data", "coupling_numba_fallback"]
 EXHAUSTIVE = {"quick": True, "thorough": True}
 
@@ -210,7 +210,8 @@ def run_case(case, ctx):
             user, call = {}, {}
             for key, vals in (("tol_m", [1e-6, 1e-7]), ("tol_p", [1e-6, 1e-8]), ("tol_res", [1e-4, 1e-6]), ("max_iter_hyd", [30, 40]),
                               ("iter", [50, 60]), ("nonlinear_method", ["automatic", "constant"]), ("friction_model", ["colebrook", "swamee-jain"]),
-                              ("mode", ["sequential", "hydraulics"]), ("tol_T", [1e-5, 1e-6]), ("max_iter_therm", [25, 35])):
+                              ("mode", ["sequential", ["hydraulics", "bidirectional"][i % 2]]), ("tol_T", [1e-5, 1e-6]), ("max_iter_therm", [25, 35]),
+                              ("max_iter_bidirect", [22, 33])):
                 r = rng.random()
                 if r < 0.35:
                     user[key] = vals[0]
@@ -228,16 +229,23 @@ def run_case(case, ctx):
             keys_diff = sorted(k for k in want if got.get(k) != want[k] and k != "alpha")
             if keys_diff:
                 obs.violate("option_precedence", "pipeflow: options in force differ for %s" % keys_diff, user=user, call=call)
+            # every stage of the Newton loop runs under its own resolved budget and tolerances
+            stage = {"hydraulics": ("max_iter_hyd", {"mdot": "tol_m", "p": "tol_p", "mdotslack": "tol_m"}),
+                     "heat": ("max_iter_therm", {"Tout": "tol_T", "T": "tol_T"}),
+                     "bidirectional": ("max_iter_bidirect", {"mdot": "tol_m", "p": "tol_p", "TOUT": "tol_T", "T": "tol_T"})}
+            seen = set()
             for ev, p in _TRACE:
-                if ev == "nr_iter" and p["mode"] == "hydraulics":
-                    if float(p["tols"]["mdot"]) != want["tol_m"] or float(p["tols"]["p"]) != want["tol_p"] or \
-                            float(p["tol_res"]) != want["tol_res"] or int(p["max_iter"]) != want["max_iter_hyd"] or \
+                if ev == "nr_iter" and p["mode"] in stage and p["mode"] not in seen:
+                    seen.add(p["mode"])
+                    budget, tolmap = stage[p["mode"]]
+                    obs.count("newton_stage_checks_" + p["mode"])
+                    bad = [k for k, o in tolmap.items() if k in p["tols"] and float(p["tols"][k]) != want[o]]
+                    if bad or float(p["tol_res"]) != want["tol_res"] or int(p["max_iter"]) != want[budget] or \
                             p["nonlinear_method"] != want["nonlinear_method"]:
-                        obs.violate("newton_loop_uses_other_options", "Newton loop ran with tols %s / tol_res %s / budget %s / %s, resolved "
-                                    "options say %s %s %s %s %s" % (p["tols"], p["tol_res"], p["max_iter"], p["nonlinear_method"], want["tol_m"],
-                                                                  want["tol_p"], want["tol_res"], want["max_iter_hyd"], want["nonlinear_method"]),
-                                    user=user, call=call)
-                    break
+                        obs.violate("newton_loop_uses_other_options", "Newton loop (%s stage) ran with tols %s / tol_res %s / budget %s / %s, resolved "
+                                    "options say %s, tol_res %s, %s=%s, %s" % (p["mode"], p["tols"], p["tol_res"], p["max_iter"], p["nonlinear_method"],
+                                                                             {o: want[o] for o in set(tolmap.values())}, want["tol_res"], budget, want[budget],
+                                                                             want["nonlinear_method"]), user=user, call=call)
         sample = {"pipeflows": case["n"], "example_user": user, "example_call": call}
     rec = {"nontrivial": obs.counters.get("resolutions_checked", 0) + obs.counters.get("documented_defaults_checked", 0)
            + obs.counters.get("pipeflow_effect_checks", 0) > 0, "sample": sample,
